@@ -410,7 +410,7 @@ func runUnit(p Prop, u Unit, scratch, out, tier string, seed int64, replay strin
 	os.MkdirAll(tmp, 0o755)
 	env = append(env, "GOFLAGS=", "GOPROXY=off", "GOSUMDB=off", "GOTOOLCHAIN=local",
 		"VERIF_OUT="+out, "VERIF_SEED="+strconv.FormatInt(seed, 10), "VERIF_TIER="+tier, "VERIF_DIR="+verifDir, "VERIF_REPO="+repoDir,
-		"VERIF_TMP="+tmp, "VERIF_REPLAY_DIR="+envOr("VERIF_REPLAY_DIR", filepath.Join(verifDir, "replays")))
+		"VERIF_TMP="+tmp, "VERIF_SHARE="+filepath.Join(scratch, "share"), "VERIF_REPLAY_DIR="+envOr("VERIF_REPLAY_DIR", filepath.Join(verifDir, "replays")))
 	if replay != "" {
 		env = append(env, "VERIF_REPLAY="+replay)
 	}
